@@ -1066,6 +1066,9 @@ func (s *Sys) syncPodsNotify() (changed bool) {
 			names[p.Name] = true
 		}
 	}
+	for _, n := range s.C.GhostPods(NS) {
+		names[n] = true
+	}
 	for _, n := range keys(names) {
 		if s.C.RefreshPod(NS, n, true) {
 			changed = true
